@@ -130,6 +130,129 @@ def check_switch_times(ctx, n):
             ctx.disagree('store_switch_times', ln, e, o)
 
 
+# ------------------------------------------------------------------ time-series updates on the real integrator
+
+TS_SCRIPT = r"""
+import sys, json, os, warnings, io, contextlib
+warnings.simplefilter('ignore')
+import numpy as np, pandas as pd, andes
+andes.config_logger(stream_level=50)
+spec = json.loads(sys.argv[1])
+ss = andes.load(andes.get_case('ieee14/ieee14_timeseries.xlsx'), setup=False, no_output=True, default_config=True)
+series = {}
+first = pd.read_excel(andes.get_case('ieee14/pqts.xlsx'), sheet_name='PQTS')
+series['PQ_1'] = [[float(t), float(p)] for t, p in zip(first['t'], first['p'])]
+for k, sr in enumerate(spec['series']):
+    f = os.path.join(spec['dir'], 'ts%d.csv' % k)
+    pd.DataFrame({'t': [r[0] for r in sr['rows']], 'p': [r[1] for r in sr['rows']], 'q': [0.1] * len(sr['rows'])}).to_csv(f, index=False)
+    ss.add('TimeSeries', dict(idx='TSx%d' % k, mode=1, path=f, sheet='-', fields='p,q', tkey='t', model='PQ', dev=sr['dev'],
+                              dests='Ppf,Qpf', u=sr.get('u', 1)))
+    if sr.get('u', 1):
+        series[sr['dev']] = [list(map(float, r)) for r in sr['rows']]
+    else:
+        series[sr['dev']] = []
+ss.setup()
+ss.PFlow.run()
+c = ss.TDS.config; c.no_tqdm = 1; c.criteria = 0; c.tstep = spec['tstep']; c.fixt = spec['fixt']
+devs = sorted(series)
+rec = []
+orig = ss.TDS.itm_step
+def wrap():
+    ok = orig()
+    if ok:
+        rec.append([float(ss.dae.t)] + [float(ss.PQ.get(src='Ppf', idx=d, attr='v')) for d in devs])
+    return ok
+ss.TDS.itm_step = wrap
+ends = []
+sink = io.StringIO()
+for tf in spec['tfs']:
+    c.tf = tf
+    with contextlib.redirect_stdout(sink):
+        ok = ss.TDS.run()
+    ends.append([bool(ok), float(ss.dae.t)] + [float(ss.PQ.get(src='Ppf', idx=d, attr='v')) for d in devs])
+print(json.dumps({'devs': devs, 'series': series, 'rec': rec, 'ends': ends, 'stamps': [float(t) for t in ss.dae.ts.t],
+                  'p0': [float(ss.PQ.get(src='p0', idx=d, attr='v')) for d in devs]}))
+"""
+
+
+def ts_job(spec):
+    import subprocess
+    import sys
+    p = subprocess.run([sys.executable, '-c', TS_SCRIPT, json.dumps(spec)], stdout=subprocess.PIPE, stderr=subprocess.PIPE,
+                       text=True, timeout=1800)
+    if p.returncode != 0:
+        return {'error': p.stderr[-500:]}
+    return json.loads(p.stdout.strip().split('\n')[-1])
+
+
+def ts_stream(ctx, n):
+    """several time-series devices with different stamp sets (shared, off-grid, beyond tf, disabled) on different loads,
+    the real integrator, resumed segments: every stamp inside the run is a stored step time, each load holds the row
+    of ITS OWN series from that instant on, and nothing else changes it"""
+    import multiprocessing as mp
+    import shutil
+    import tempfile
+    tmp = tempfile.mkdtemp(prefix='c06ts-', dir=C.WORK)
+    specs = []
+    for k in range(n):
+        rng = ctx.rng
+        pool = [round(rng.uniform(0.2, 2.4), rng.choice([1, 2, 3])) for _ in range(5)] + [1.0, 1.5, 2.0, rng.uniform(0.3, 2.3)]
+        series = []
+        for j, dev in enumerate(rng.sample(['PQ_2', 'PQ_3', 'PQ_4', 'PQ_5'], rng.choice([1, 2, 2, 3]))):
+            st = sorted(set(rng.sample(pool, rng.choice([1, 2, 3]))))
+            if rng.random() < 0.2:
+                st.append(5.0)       # beyond the end of the run: never applied
+            series.append({'dev': dev, 'rows': [[t, round(0.3 + 0.1 * i + 0.05 * j, 3)] for i, t in enumerate(st)],
+                           'u': 0 if rng.random() < 0.12 else 1})
+        cut = round(rng.uniform(0.4, 2.2), rng.choice([1, 2]))
+        d = os.path.join(tmp, 'j%d' % k)
+        os.makedirs(d)
+        specs.append({'series': series, 'tfs': [2.6] if rng.random() < 0.5 else [cut, 2.6], 'tstep': rng.choice([1 / 30, 0.05, 0.1]),
+                      'fixt': rng.choice([1, 1, 0]), 'dir': d})
+    with mp.get_context('fork').Pool(min(6, max(1, len(specs)))) as pool:
+        res = pool.map(ts_job, specs)
+    shutil.rmtree(tmp, ignore_errors=True)
+    for sp, r in zip(specs, res):
+        case = {'stream': 'time-series', 'spec': {k: v for k, v in sp.items() if k != 'dir'}}
+        ctx.case(json.dumps(case, sort_keys=True), case)
+        ctx.count('timeseries_runs')
+        if 'error' in r:
+            ctx.oracle_fail('timeseries-run-raises', 'a run with time-series devices raised: ' + r['error'][-200:], case)
+            continue
+        tf = sp['tfs'][-1]
+        stamps = r['stamps']
+        if any(b <= a for a, b in zip(stamps, stamps[1:])):
+            ctx.oracle_fail('stamps-not-increasing', 'stored time stamps are not strictly increasing in a run with time series', case)
+        if not r['ends'][-1][0] or r['ends'][-1][1] != tf:
+            ctx.oracle_fail('success-not-at-tf', 'a run with time series did not end at tf: %r' % r['ends'][-1][:2], case)
+            continue
+        for di, dev in enumerate(r['devs']):
+            rows = r['series'][dev]
+            for t, _ in rows:
+                if 0 < t <= tf:
+                    ctx.count('timeseries_stamps')
+                    if t not in stamps:
+                        ctx.oracle_fail('step-crosses-event', 'no stored step ends exactly at the time-series stamp %r of %s' % (t, dev), case)
+            # a step that ends at time t was solved with the rows whose stamp is < t (the update is applied after the
+            # step that lands on its stamp); at the end of a run the rows with stamp <= t have been applied
+            def want(t, strict):
+                v = r['p0'][di]
+                for ts_, p_ in rows:
+                    if ts_ < t or (not strict and ts_ == t):
+                        v = p_
+                return v
+            for row in r['rec']:
+                if abs(row[1 + di] - want(row[0], True)) > 1e-12:
+                    ctx.oracle_fail('timeseries-value-wrong', 'load %s holds Ppf = %r during the step ending at t = %r; its own series says %r'
+                                    % (dev, row[1 + di], row[0], want(row[0], True)), case)
+                    break
+            for e in r['ends']:
+                if abs(e[2 + di] - want(e[1], False)) > 1e-12:
+                    ctx.oracle_fail('timeseries-value-wrong', 'after the run to t = %r load %s holds Ppf = %r; its own series says %r'
+                                    % (e[1], dev, e[2 + di], want(e[1], False)), case)
+                    break
+
+
 def run(ctx):
     import andes
     andes.config_logger(stream_level=50)
@@ -139,6 +262,7 @@ def run(ctx):
     scs += [T.gen_scenario(ctx.rng) for _ in range(n)]
     check_scenarios(ctx, scs)
     check_switch_times(ctx, ctx.n(300, 3000))
+    ts_stream(ctx, ctx.n(5, 30))
     ctx.cov['source_hashes'] = {
         'TDS.calc_h': C.hash_source(C.REPO + '/andes/routines/tds.py', 'TDS.calc_h'),
         'TDS.run': C.hash_source(C.REPO + '/andes/routines/tds.py', 'TDS.run'),
